@@ -305,11 +305,14 @@ class ParseContext:
       module = '.'.join([source.partial_path(), *inner_names])
 
     original = _inverse_lookup(fn_or_cls)
+    allowlist = denylist = None
     if original is not None:
       # Re-registration (of a class, for one of its methods): keep the name the
       # class is already known under, which may derive from another import
       # spelling, so that existing bindings and registered methods still apply.
+      # Likewise keep the lists restricting which parameters are configurable.
       fn_or_cls_name, module = original.name, original.module
+      allowlist, denylist = original.allowlist, original.denylist
     elif inspect.isfunction(fn_or_cls) and inspect.isclass(path_attrs[-1]):  # pytype: disable=not-supported-yet
       parent_class = _inverse_lookup(path_attrs[-1])
       if parent_class is not None:
@@ -318,6 +321,8 @@ class ParseContext:
         fn_or_cls,
         name=fn_or_cls_name,
         module=module,
+        allowlist=allowlist,
+        denylist=denylist,
         import_source=self._import_source(source, attr_names),
         avoid_class_mutation=True)
     if original is not None:  # We've re-registered something...
